@@ -102,6 +102,7 @@ def convPrim (P : Params) (cfg : Cfg) (p : Prim) (s : Bytes) : Option Val :=
   | .bool => (parseBool s).map .bool
   | .time => (P s).t.map .time
   | .dur => (P s).d.map .int
+  | .opq k => ((P s).o.lookup k).map .time
 
 /-- setFieldValue / convertToType on a type of the grammar: only leaves convert -/
 def convTy (P : Params) (cfg : Cfg) : Ty → Bytes → Option Val
